@@ -766,12 +766,23 @@ def make_chunks(M, st, fr, t, args, site):
     return NotImplemented
 
 
+@summary("std::iter::repeat")
+def iter_repeat(M, st, fr, t, args, site):
+    """`repeat(v)`: the endless source; only `repeat(v).take(n)` is given a meaning (n copies of v, a fill like Vec::resize's)"""
+    return ('iter', "repeat:%s" % M.describe(st, args[0]), (), fr.crate.name, True)
+
+
 @pattern(r"^std::iter::Iterator::(enumerate|skip|rev|take|step_by|filter|map|peekable|chain|zip|cloned|copied)$")
 def iter_adapter(M, st, fr, t, args, site):
     v = args[0]
     if v[0] != 'iter':
         return NotImplemented
     nm = t["callee"]["rpath"].rsplit("::", 1)[-1]
+    if nm == "take" and v[1].startswith("repeat:") and not v[2]:
+        n = M.as_int(st, args[1])
+        if n is None:
+            return NotImplemented
+        return vec_value([('blob', "fill(%s)" % v[1][len("repeat:"):], n)])
     extra = M.describe(st, args[1]) if len(args) > 1 else ""
     return ('iter', v[1], v[2] + ((nm, extra),), v[3], v[4])
 
